@@ -56,10 +56,9 @@ Proof.
   - intros j H. rewrite RG, rs_rr by assumption. auto.
   - intros j H. rewrite rs_rr in H. destruct (fs_hsame _ _ _ S (16 + j)) as (A&B&C&E&_).
     rewrite A, B, C, E, rs_rf. auto.
-  - intros j H. rewrite rs_rr in H. rewrite rs_er, rs_rf, rs_rwf. specialize (dy_kern j H).
-    destruct (efd_raw s =? 0); [eapply pipe_ok_kctl|eapply evfd_ok_kctl]; eassumption.
-  - rewrite rs_er, FL. assumption.
-  - rewrite rs_er, FL, rs_rr. assumption.
+  - intros j H. rewrite rs_rr in H. unfold raw_is_pipe. rewrite rs_rf, rs_rwf. specialize (dy_kern j H).
+    unfold raw_is_pipe in dy_kern.
+    destruct (negb (rw_wfd s j =? rw_rfd s j)); [eapply pipe_ok_kctl|eapply evfd_ok_kctl]; eassumption.
   - rewrite rs_er. assumption.
   - intros k0 H. destruct (fs_hsame _ _ _ S k0) as (_&B&C&E&_). unfold hids_ok. rewrite B, C, E. apply dy_userh. assumption.
   - rewrite rs_ar, rs_af, rs_aw. intros H. destruct (dy_act H) as (X & (v & A & B) & C). split; [assumption|]. split.
@@ -184,7 +183,7 @@ Proof.
   intros s s' CS NB [A B C D E F G H]. constructor.
   - eapply FdInv_eq; [exact A|intros k; rewrite (cs_fdt _ _ CS); tauto|apply CS..].
   - intros k. unfold sync_at, is_epoll. cs_rw CS. apply B.
-  - destruct C. constructor; unfold is_epoll; cs_rw CS; assumption.
+  - destruct C. constructor; unfold is_epoll, raw_is_pipe in *; cs_rw CS; assumption.
   - cs_rw CS. assumption.
   - destruct E. constructor; unfold curl; cs_rw CS; assumption.
   - destruct F. constructor; unfold is_epoll; cs_rw CS; assumption.
@@ -364,10 +363,8 @@ Proof.
     + intros fd Q. eapply kstable_get_some; eassumption.
   - intros k. apply sync_at_same with (s := s); try reflexivity. apply B.
   - destruct C. constructor; sp; try assumption.
-    + intros j J. specialize (dy_kern j J). destruct (efd_raw s =? 0);
-        [eapply pipe_ok_kstable|eapply evfd_ok_kstable]; eassumption.
-    + rewrite (kt_flt _ _ S). assumption.
-    + rewrite (kt_flt _ _ S). assumption.
+    + intros j J. specialize (dy_kern j J). change (raw_is_pipe (set_kern s k') j) with (raw_is_pipe s j).
+      destruct (raw_is_pipe s j); [eapply pipe_ok_kstable|eapply evfd_ok_kstable]; eassumption.
     + intros J. destruct (dy_act J) as (X & (v & V1 & V2) & W). split; [assumption|]. split.
       * destruct (kstable_open _ _ _ _ S V1) as (v' & V1' & Q). destruct (Q X) as (Q1 & _).
         exists v'. split; [assumption|]. rewrite Q1. assumption.
@@ -412,7 +409,7 @@ Proof.
   intros s s' CS [A B C D E F G H] NB HI TI EI AC. constructor; try assumption.
   - eapply FdInv_eq; [exact A|intros k; rewrite (fc_fdt _ _ CS); tauto|apply CS..].
   - intros k. unfold sync_at, is_epoll. fc_rw CS. apply B.
-  - destruct C. constructor; unfold is_epoll; fc_rw CS; assumption.
+  - destruct C. constructor; unfold is_epoll, raw_is_pipe in *; fc_rw CS; assumption.
   - destruct H. constructor; unfold is_epoll; fc_rw CS; assumption.
 Qed.
 Ltac fc_refl := constructor; reflexivity.
